@@ -107,12 +107,20 @@ func hidden(m *hx.Model, key, mask string) bool {
 // view is what an iterator configuration can see: visible points inside the bounds and the maximal
 // defragmented spans clipped to the bounds.
 type view struct {
-	pts   []hx.KV
-	spans []hx.Span
-	keys  []string // sorted positions: point keys united with span starts
+	pts     []hx.KV
+	spans   []hx.Span
+	skeys   []string // per span: rendered (suffix=value,) list
+	clipped []bool   // per span: bounds differ from the unclipped maximal span
+	keys    []string // sorted positions: point keys united with span starts
 }
 
 func (v *view) finish() {
+	v.skeys = make([]string, len(v.spans))
+	for i, s := range v.spans {
+		for _, e := range s.Keys {
+			v.skeys[i] += e.K + "=" + e.V + ","
+		}
+	}
 	seen := map[string]bool{}
 	v.keys = v.keys[:0]
 	for _, p := range v.pts {
@@ -146,6 +154,15 @@ func buildView(m *hx.Model, ic IterCfg) *view {
 			v.pts = append(v.pts, p)
 		}
 	}
+	for _, s := range v.spans {
+		cl := true
+		for _, f := range m.Spans("", "") {
+			if f.Start == s.Start && f.End == s.End {
+				cl = false
+			}
+		}
+		v.clipped = append(v.clipped, cl)
+	}
 	v.finish()
 	return v
 }
@@ -159,7 +176,7 @@ func (v *view) prefixView(prefix string) *view {
 			w.pts = append(w.pts, p)
 		}
 	}
-	for _, s := range v.spans {
+	for i, s := range v.spans {
 		st, en := s.Start, s.End
 		if kcmp(st, lo) < 0 {
 			st = lo
@@ -169,19 +186,20 @@ func (v *view) prefixView(prefix string) *view {
 		}
 		if kcmp(st, en) < 0 {
 			w.spans = append(w.spans, hx.Span{Start: st, End: en, Keys: s.Keys})
+			w.clipped = append(w.clipped, v.clipped[i] || st != s.Start || en != s.End)
 		}
 	}
 	w.finish()
 	return w
 }
 
-func (v *view) spanAt(k string) *hx.Span {
+func (v *view) spanAt(k string) int {
 	for i := range v.spans {
 		if kcmp(v.spans[i].Start, k) <= 0 && kcmp(k, v.spans[i].End) < 0 {
-			return &v.spans[i]
+			return i
 		}
 	}
-	return nil
+	return -1
 }
 
 func (v *view) pointAt(k string) (string, bool) {
@@ -205,6 +223,7 @@ type Obs struct {
 	Keys     string `json:"keys,omitempty"` // "@2=x,@1=v0," in suffix order
 	Changed  bool   `json:"changed,omitempty"`
 	Err      string `json:"err,omitempty"`
+	clipped  bool
 }
 
 func (o Obs) String() string {
@@ -275,11 +294,9 @@ func (m *miter) at(k string, ok bool, dir int) Obs {
 		o.HasPoint, o.Val = true, v
 	}
 	id := ""
-	if s := m.cur.spanAt(k); s != nil {
-		o.HasRange, o.Start, o.End = true, s.Start, s.End
-		for _, e := range s.Keys {
-			o.Keys += e.K + "=" + e.V + ","
-		}
+	if i := m.cur.spanAt(k); i >= 0 {
+		s := &m.cur.spans[i]
+		o.HasRange, o.Start, o.End, o.Keys, o.clipped = true, s.Start, s.End, m.cur.skeys[i], m.cur.clipped[i]
 		id = s.Start + "\x01" + s.End
 	}
 	if !o.HasPoint && !o.HasRange {
@@ -324,7 +341,7 @@ func (m *miter) seekGE(k string) Obs {
 	if m.ic.Upper != "" && kcmp(k, m.ic.Upper) >= 0 {
 		return m.at("", false, +1)
 	}
-	if m.cur.spanAt(k) != nil {
+	if m.cur.spanAt(k) >= 0 {
 		return m.at(k, true, 0)
 	}
 	p, ok := m.firstGE(k)
